@@ -357,6 +357,7 @@ fn execute(plan: &Plan, prof: &Profile, sched_rng: &mut Rng, forced: Option<&[St
     let mut two_parties: Option<String> = None;
     let mut order_violation: Option<String> = None;
     let mut missed_wake: Option<String> = None;
+    let mut rejected_altered: Option<String> = None;
     let mut causes: Vec<String> = Vec::new();
     let timeouts = prof.timeouts;
     let taken = {
@@ -368,6 +369,9 @@ fn execute(plan: &Plan, prof: &Profile, sched_rng: &mut Rng, forced: Option<&[St
         let two_ref = &mut two_parties;
         let order_ref = &mut order_violation;
         let missed_ref = &mut missed_wake;
+        let altered_ref = &mut rejected_altered;
+        let mut claim_bytes: Vec<Option<String>> = vec![None; plan.n];
+        let mut prev_bytes: Vec<String> = main.snapshot().split('/').skip(1).map(|p| p.rsplit(':').next().unwrap_or("").to_string()).collect();
         let mut parked: Vec<Option<u32>> = vec![None; plan.progs.len()];
         let mut handback: Vec<bool> = vec![false; plan.n];
         let mut published: Vec<(usize, usize)> = Vec::new();
@@ -509,6 +513,25 @@ fn execute(plan: &Plan, prof: &Profile, sched_rng: &mut Rng, forced: Option<&[St
                         }
                     }
                 }
+                // a REJECTED frame leaves the slot it was (tentatively) claimed for as it was: contents when the receive
+                // side hands its claim back (RxBusy -> Sent) must equal the contents at the claim (Sent -> RxBusy)
+                {
+                    let per_slot: Vec<&str> = snap.split('/').skip(1).map(|p| p.rsplit(':').next().unwrap_or("")).collect();
+                    for (k, a, b) in &changed {
+                        if *a == 4 && *b == 5 {
+                            claim_bytes[*k] = prev_bytes.get(*k).cloned();
+                        } else if *a == 5 && *b == 4 {
+                            if let (Some(h0), Some(now)) = (claim_bytes[*k].take(), per_slot.get(*k)) {
+                                if h0 != *now && altered_ref.is_none() {
+                                    *altered_ref = Some(format!("slot {k}: the receive side handed its claim back (frame rejected) but the slot's contents changed while it held the claim"));
+                                }
+                            }
+                        } else if *a == 5 {
+                            claim_bytes[*k] = None;
+                        }
+                    }
+                    prev_bytes = per_slot.iter().map(|x| x.to_string()).collect();
+                }
                 // a frame that became Sendable while the transmit side sleeps must have woken it: if the TX task's last
                 // scan found nothing (it would go to sleep now), it has not started another one, its "woken" bit is
                 // clear, and a slot is Sendable for a reason other than TX's own hand-back after a failed send, the
@@ -627,6 +650,9 @@ fn execute(plan: &Plan, prof: &Profile, sched_rng: &mut Rng, forced: Option<&[St
     let mut rep = Stage(&mut staged);
     if let Some(t) = &two_parties {
         rep.fail(&format!("{}/two-parties", prof.key), t, &line);
+    }
+    if let Some(t) = &rejected_altered {
+        rep.fail(&format!("{}/rejected-frame-altered-slot", prof.key), t, &line);
     }
     if let Some(t) = &missed_wake {
         rep.fail(&format!("{}/missed-tx-wake", prof.key), t, &line);
